@@ -69,6 +69,9 @@ type NodeMachine struct {
 	AddrUniv []string
 	// statistics for non-triviality rules / labels
 	Stat map[string]int
+	// Unauth: ids of generated transactions that are NOT properly authorised (signature removed / foreign key /
+	// flag mutants): a block re-using one of them is invalid although the model state would admit its effects
+	Unauth map[string]bool
 	// CheckFresh: compare with a freshly replayed node after walks and at the end
 	Specs       map[string]TxSpec // every spec submitted through a "tx" op, by txid
 	LastOutcome string
@@ -82,7 +85,7 @@ func NewNodeMachine(opts NodeOpts, fs *FindingSet) (*NodeMachine, error) {
 		return nil, err
 	}
 	nm := &NodeMachine{N: n, FS: fs, BlockTxs: map[int][]*pb.Transaction{}, States: map[int]*MState{}, Valid: map[int]bool{}, WhyNot: map[int]string{},
-		Seq: 100, IrrevBlk: -1, Window: opts.Window, KeyUniv: map[string]bool{}, Stat: map[string]int{}, Specs: map[string]TxSpec{}}
+		Seq: 100, IrrevBlk: -1, Window: opts.Window, KeyUniv: map[string]bool{}, Stat: map[string]int{}, Specs: map[string]TxSpec{}, Unauth: map[string]bool{}}
 	nm.LM = NewLedgerMachineOn(func() *ledgerpkg.Ledger { return nm.N.Ledger }, n.Root, fs)
 	s := NewMState()
 	root := CloneTxs(n.Root.Transactions)
@@ -523,6 +526,9 @@ func (nm *NodeMachine) Apply(op NOp) error {
 						if cerr := s.Check(otx, height); cerr != nil {
 							valid = false
 							whyNot = fmt.Sprintf("re-included transaction %s: %v", Hex8(otx.Txid), cerr)
+						} else if nm.Unauth[string(otx.Txid)] {
+							valid = false
+							whyNot = fmt.Sprintf("re-included transaction %s is not authorised by its initiator", Hex8(otx.Txid))
 						} else {
 							nm.Stat["peer-shares-tx-with-other-branch"]++
 						}
@@ -568,6 +574,7 @@ func (nm *NodeMachine) Apply(op NOp) error {
 				}
 				if mutated {
 					tx.Txid, _ = txhash.MakeTransactionID(tx)
+					nm.Unauth[string(tx.Txid)] = true
 					valid = false
 					whyNot = fmt.Sprintf("transaction %s is not signed by its initiator / does not balance (%s)", Hex8(tx.Txid), op.TxMut)
 					nm.Stat["peer-unsigned-tx:"+op.TxMut]++
